@@ -159,7 +159,17 @@ def runner(rep, tier, seed, replay):
     rep.add_tlc(r)
     total = len(cases)
     if len(cases) > (1500 if tier == "quick" else 20000):
-        cases = rnd.sample(cases, 1500 if tier == "quick" else 20000)
+        # programs in which `set -e` meets a block (if / for) or a call / source are always kept: that is where the status rules
+        # of C15 interact; the rest is sampled
+        def hot(c):
+            ks = [p["k"] for p in c["prog"]]
+            return "sete" in ks and any(k in ks for k in ("if", "for", "call", "src"))
+        keep = [c for c in cases if hot(c)]
+        rest = [c for c in cases if not hot(c)]
+        budget = 1500 if tier == "quick" else 20000
+        if len(keep) > budget * 2 // 3:
+            keep = rnd.sample(keep, budget * 2 // 3)
+        cases = keep + rnd.sample(rest, min(len(rest), budget - len(keep)))
     log("[C15] %d programs enumerated, %d replayed" % (total, len(cases)))
     jobs = []
     for c in cases:
